@@ -198,6 +198,33 @@ def check_extend(L, a, dist, circular):
     return fails
 
 
+def check_text_form(a):
+    """the textual form reads back to the same location: parts, strands, the operator joining the parts and uncertain
+    ('<', '>') boundaries"""
+    try:
+        back = location_from_string(str(a))
+    except Exception as err:  # pylint: disable=broad-except
+        return [("string-raised", f"{a}: {repr(err)[:100]}")]
+    same = (str(back) == str(a) and len(back.parts) == len(a.parts) and getattr(back, "operator", None) == getattr(a, "operator", None)
+            and [(repr(p.start), repr(p.end), p.strand) for p in back.parts] == [(repr(p.start), repr(p.end), p.strand) for p in a.parts])
+    return [] if same else [("string-roundtrip-form", f"{a!r} -> {back!r}")]
+
+
+def text_form_universe(L):
+    """multi-part locations with either operator, every strand incl. none, and uncertain outer boundaries"""
+    from Bio.SeqFeature import AfterPosition, BeforePosition  # pylint: disable=import-outside-toplevel
+    out = []
+    for strand in (1, -1, None):
+        for s1, e1, s2, e2 in itertools.combinations(range(L + 1), 4):
+            for operator in ("join", "order"):
+                out.append(C([F(s1, e1, strand), F(s2, e2, strand)], operator=operator))
+                out.append(C([F(BeforePosition(s1), e1, strand), F(s2, AfterPosition(e2), strand)], operator=operator))
+        for s, e in itertools.combinations(range(L + 1), 2):
+            out.append(F(BeforePosition(s), e, strand))
+            out.append(F(s, AfterPosition(e), strand))
+    return out
+
+
 def _loc_equal(a, b):
     return (type(a).__name__ == type(b).__name__ and a.strand == b.strand
             and [(int(p.start), int(p.end), p.strand) for p in a.parts] == [(int(p.start), int(p.end), p.strand) for p in b.parts]
@@ -420,6 +447,13 @@ def run_shard(shard):
             for clause, detail in check_string(L, a, flag):
                 res.fail(case, clause, detail)
             res.sample(case, 1)
+        if L <= 7:
+            for a in text_form_universe(L):
+                res.evals += 1
+                res.nontrivial += 1
+                for clause, detail in check_text_form(a):
+                    res.fail({"op": "text-form", "L": L, "a": repr(a)}, clause, detail)
+            res.buckets["string:operators-and-uncertain-ends"] += 1
         res.outcomes[("string", L)] += 1
     elif kind == "lt":
         _run_lt(L, res)
@@ -538,6 +572,11 @@ def replay(case):
     _recs(L)
     if op == "pair":
         return check_pair(L, dec(case["a"]), dec(case["b"]))
+    if op == "text-form":
+        for cand in text_form_universe(L):
+            if repr(cand) == case["a"]:
+                return check_text_form(cand)
+        return []
     if op == "connect":
         locs = [dec(x) for x in case["locs"]]
         fails, out = check_connect(L, locs, case["circular"])
